@@ -5,6 +5,7 @@ import (
 	"encoding/json"
 	"errors"
 	"fmt"
+	"hash/crc32"
 	"io"
 	"strconv"
 
@@ -40,6 +41,7 @@ type multiRun struct {
 	got      [][4]int
 	expected []byte
 	outcome  []string
+	side     *zerolog.Logger // non-nil: destinations log through it from inside Write / WriteLevel
 }
 
 type mdest struct {
@@ -71,6 +73,11 @@ func (d *mdest) record(lvl int, p []byte) (int, error) {
 		intact = 1
 	}
 	d.r.got = append(d.r.got, [4]int{d.id, eventNo(p), lvl, intact})
+	if d.r.side != nil {
+		// a destination that itself logs through zerolog while it is inside Write (an audit line, a failure report to a
+		// fallback logger): the bytes it was handed must stay what they are for the destinations served after it
+		d.r.side.Warn().Int("dest", d.id).Str("outcome", d.r.outcome[d.id-1]).Bytes("pad", p).Msg("destination called")
+	}
 	switch d.r.outcome[d.id-1] {
 	case "err":
 		return 0, d.err
@@ -134,6 +141,10 @@ func (f *multiFam) play(l *Line, out *rec) error {
 		logger = zerolog.New(ws[0])
 	}
 	out.emit(map[string]interface{}{"a": "Reset", "conf": c.Name, "id": l.ID})
+	if crc32.ChecksumIEEE([]byte(l.ID))%3 == 0 { // every third history: re-entrant destinations
+		sl := zerolog.New(io.Discard)
+		r.side = &sl
+	}
 	for i, raw := range l.Ops {
 		var op multiOp
 		if err := json.Unmarshal(raw, &op); err != nil {
